@@ -108,6 +108,11 @@ def check_property(verif, pid, tier, cp, keep=False):
     try:
         ents = unit_entries(cp, tier)
         kgroups = kani_run.groups_for(verif, pid, tier)
+        only = os.environ.get("VERIF_ONLY", "")  # development aid: "verus" or "kani"
+        if only == "verus":
+            kgroups = []
+        elif only == "kani":
+            ents = []
         with cf.ThreadPoolExecutor(max_workers=8) as ex:
             vf = [(e, ex.submit(verus_run.run_unit, verif, REPO, e["unit"], os.path.join(scratch, "verus"),
                                  60 if tier == "thorough" else 30)) for e in ents]
